@@ -498,6 +498,29 @@ func genPrioScenario(rng *rand.Rand, g prioGen) PrioScenario {
 			sc.Script = append(sc.Script, POp{K: "D"})
 		}
 	}
+	if g.Mode == "general" && len(prios) >= 2 && !sc.Starved && len(sc.Script) == 0 && rng.IntN(10) == 0 {
+		// an UNBUFFERED input is closed (and seen closed) while a few of its items are still held,
+		// and the other inputs keep supplying data
+		u := prios[rng.IntN(len(prios))]
+		if sh := int(sharesOf(div, prios, sc.H)[u]); sh >= 2 {
+			k := 1 + rng.IntN(sh-1)
+			for i := range sc.Inputs {
+				if sc.Inputs[i].P == u {
+					sc.Inputs[i] = PInputSpec{P: u, Cap: 0}
+				}
+			}
+			left[u] = 0
+			closed[u] = true
+			sc.Script = append(sc.Script, POp{K: "W", P: u, N: k}, POp{K: "D"}, POp{K: "C", P: u}, POp{K: "D"}, POp{K: "S", D: int64(5 + rng.IntN(40))})
+			for _, p := range prios {
+				if p != u {
+					n := H + rng.IntN(H+1)
+					sc.Script = append(sc.Script, POp{K: "W", P: p, N: n})
+				}
+			}
+			sc.Script = append(sc.Script, POp{K: "D"})
+		}
+	}
 	steps := 6 + rng.IntN(30)
 	for i := 0; i < steps; i++ {
 		switch k := rng.IntN(20); {
